@@ -673,7 +673,8 @@ func TestProp(t *testing.T) {
 			"lists, members, tags iff keepTags) must equal the model for every schedule and worker count; Check() nil when the document has no dangling reference; Filter result = model applied to " +
 			"the extracted data, subset, closed, idempotent. Non-trivial = some object is selected only because of state built earlier (bounds-selected way/relation or >=2 dependency levels) and the " +
 			"schedule releases some entity out of canonical order (sched) / the element order is not conventional (plain); filter cases with ways or relations. Distinct by case hash." +
-			" Round 9: tag keys and values containing '=', ',' and blanks, extending one another across an '=' sign.",
+			" Round 9: tag keys and values containing '=', ',' and blanks, extending one another across an '=' sign." +
+			" Round 10: one case in three hands over a reader that was read to its end, or a third of the way, before.",
 		Assumptions: []string{"schedules are explored at the granularity of the hook points (receive, keep evaluation, done, send, close)", "the sched engine depends on the build-tag verif hooks in encoding/osm"},
 		Gen:         gen,
 		Run:         run,
